@@ -213,33 +213,32 @@ Proof.
 Qed.
 
 (* ================= the leader handles the answer ================= *)
-Lemma leader_next_idx : forall e fid t nx reset success nl m0,
+Lemma leader_next_idx : forall e fid t nx reset success nl m0 cur,
   role nl = LEADER -> term nl = t -> aget fid (match_idx nl) = Some m0 ->
+  aget fid (next_idx nl) = Some cur ->
   let n' := nd (on_message e fid (NextIdx t nx reset success) nl) in
   role n' = LEADER /\ term n' = t /\ log n' = log nl /\ tconn n' = tconn nl /\ commit n' = commit nl /\
-  (exists m1, aget fid (match_idx n') = Some m1) /\
+  aget fid (match_idx n') = Some (if success && (m0 <? nx - 1) then nx - 1 else m0) /\
   aget fid (next_idx n') =
-    (if reset then Some nx else if success && (m0 <? nx - 1) then Some nx else aget fid (next_idx nl)).
+    (if success && (m0 <? nx - 1) then Some nx else if reset then Some (N.min nx cur) else Some cur).
 Proof.
-  intros e fid t nx reset success nl m0 Hr Ht Hm. cbv zeta. cbn [on_message nd start_S].
+  intros e fid t nx reset success nl m0 cur Hr Ht Hm Hcur. cbv zeta. cbn [on_message nd start_S].
   rewrite Hr, Ht, !N.eqb_refl. cbn [andb].
-  set (s1 := if reset then upd (fun n => n <| next_idx := aset fid nx (next_idx n) |>) (start_S e nl) else start_S e nl).
+  set (s1 := if reset then upd (fun n => n <| next_idx := aset fid (match aget fid (next_idx n) with
+                                 | Some cur0 => N.min nx cur0 | None => nx end) (next_idx n) |>) (start_S e nl)
+             else start_S e nl).
   assert (H1 : role (nd s1) = LEADER /\ term (nd s1) = t /\ log (nd s1) = log nl /\ tconn (nd s1) = tconn nl /\
                commit (nd s1) = commit nl /\ match_idx (nd s1) = match_idx nl /\ exc s1 = 0 /\
-               aget fid (next_idx (nd s1)) = if reset then Some nx else aget fid (next_idx nl)).
-  { subst s1. destruct reset; unfold upd; cbn; repeat split; auto. apply aget_aset_same. }
+               aget fid (next_idx (nd s1)) = if reset then Some (N.min nx cur) else Some cur).
+  { subst s1. destruct reset; unfold upd; cbn; repeat split; auto. rewrite Hcur. apply aget_aset_same. }
   clearbody s1. destruct H1 as (A1 & A2 & A3 & A4 & A5 & A6 & A7 & A8).
-  destruct success.
+  destruct success; cbn [andb].
   - rewrite A6, Hm. destruct (m0 <? nx - 1) eqn:Em.
-    + unfold ok, upd. cbn. rewrite A7. cbn. repeat split; auto.
-      all: try (exists (nx - 1); apply aget_aset_same).
-      all: try (rewrite aget_aset_same; destruct reset; reflexivity).
+    + unfold ok, upd. cbn. rewrite A7. cbn. repeat split; auto; apply aget_aset_same.
     + unfold ok. rewrite A7. cbn [N.eqb]. unfold upd. cbn. repeat split; auto.
-      all: try (exists m0; rewrite A6; exact Hm).
-      all: try (rewrite A8; destruct reset; reflexivity).
+      rewrite A6; exact Hm.
   - unfold ok. rewrite A7. cbn [N.eqb]. unfold upd. cbn. repeat split; auto.
-    all: try (exists m0; rewrite A6; exact Hm).
-    all: try (rewrite A8; destruct reset; reflexivity).
+    rewrite A6; exact Hm.
 Qed.
 
 (* ================= a common segment C inside a consecutive log X ++ C ++ Y ================= *)
@@ -320,6 +319,30 @@ Proof.
   induction l as [|x l IH]; intros [|j] a H; cbn in *; try discriminate.
   - inversion H; subst. eauto.
   - apply IH. exact H.
+Qed.
+
+(* a batch cut from inside the log is not empty, starts at next and stays inside the log *)
+Lemma batch_from_bounds : forall e l next, log_wf l -> first_idx l < next -> next <= last_idx l ->
+  batch_from e l next <> [] /\ consec next (batch_from e l next) /\
+  next <= last_idx (batch_from e l next) /\ last_idx (batch_from e l next) <= last_idx l.
+Proof.
+  intros e l next Hwf Hf Hl. unfold batch_from.
+  destruct (next <=? last_idx l) eqn:En; [|lia]. rewrite get_entries_maxsz.
+  pose proof (get_entries_consec l next None Hwf) as Hc.
+  assert (Hne : l <> []) by (intros ->; cbn in *; lia).
+  pose proof (consec_last_idx _ _ Hwf Hne) as Hq.
+  assert (Hr : get_entries l (Some next) None None = skipn (N.to_nat (next - first_idx l)) l).
+  { unfold get_entries. destruct (next <? first_idx l) eqn:E; [lia|reflexivity]. }
+  set (r := get_entries l (Some next) None None) in *.
+  assert (Hlen : length r = (length l - N.to_nat (next - first_idx l))%nat) by (rewrite Hr; apply skipn_length).
+  assert (Hrne : r <> []) by (intros H0; rewrite H0 in Hlen; cbn in Hlen; lia).
+  destruct (take_size_firstn r (batch (cf e)) 0) as (k & K1 & K2 & K3). specialize (K2 Hrne).
+  rewrite K1.
+  assert (Hk : length (firstn k r) = k) by (apply firstn_length_le; exact K3).
+  assert (Hene : firstn k r <> []) by (intros H0; rewrite H0 in Hk; cbn in Hk; lia).
+  pose proof (consec_firstn k r next Hc) as Hce.
+  pose proof (consec_last_idx _ _ Hce Hene) as Hqe.
+  repeat split; auto; lia.
 Qed.
 
 Lemma round_unfold : forall e lid fid nl nf next M R,
@@ -424,10 +447,15 @@ Proof.
     as (F1 & F2 & F3 & F4).
   rewrite (round_unfold e lid fid nl nf next _ _ bi_next0 S1 F4). cbn [fst snd].
   destruct bi_match0 as [m0 Hm0]. rewrite <- S6 in Hm0.
-  destruct (leader_next_idx e fid T (last_idx (log nf) + 1) true false _ m0 S2 S3 Hm0)
+  destruct (leader_next_idx e fid T (last_idx (log nf) + 1) true false _ m0 _ S2 S3 Hm0 S7)
     as (N1 & N2 & N3 & N4 & N5 & N6 & N7).
+  cbn [andb] in N6, N7.
+  assert (Hcur : next <= (if next <=? last_idx L then last_idx (batch_from e L next) + 1 else next)).
+  { destruct (next <=? last_idx L) eqn:En; [|lia].
+    destruct (batch_from_bounds e L next HLwf Hf ltac:(lia)) as (_ & _ & Hb & _). lia. }
+  rewrite N.min_l in N7 by lia.
   split; [|exact F1].
-  constructor; auto; try congruence; try lia.
+  constructor; eauto; try congruence; try lia.
 Qed.
 
 (* case B: the follower has the previous index, beyond the common segment: the terms differ *)
@@ -470,10 +498,15 @@ Proof.
               bi_fterm0 bi_conn_f0 HgF Hne) as (F1 & F2 & F3 & F4).
   rewrite (round_unfold e lid fid nl nf next _ _ bi_next0 S1 F4). cbn [fst snd].
   destruct bi_match0 as [m0 Hm0]. rewrite <- S6 in Hm0.
-  destruct (leader_next_idx e fid T (next - 1) true false _ m0 S2 S3 Hm0)
+  destruct (leader_next_idx e fid T (next - 1) true false _ m0 _ S2 S3 Hm0 S7)
     as (N1 & N2 & N3 & N4 & N5 & N6 & N7).
+  cbn [andb] in N6, N7.
+  assert (Hcur : next <= (if next <=? last_idx L then last_idx (batch_from e L next) + 1 else next)).
+  { destruct (next <=? last_idx L) eqn:En; [|lia].
+    destruct (batch_from_bounds e L next HLwf Hf ltac:(lia)) as (_ & _ & Hb & _). lia. }
+  rewrite N.min_l in N7 by lia.
   split; [|exact F1].
-  constructor; auto; try congruence; try lia.
+  constructor; eauto; try congruence; try lia.
 Qed.
 
 (* case C: the previous index is the end of the common segment: accepted; the follower's log
@@ -526,8 +559,9 @@ Proof.
   rewrite (round_unfold e lid fid nl nf next _ _ bi_next0 S1 F4). cbn [fst snd].
   destruct bi_match0 as [m0 Hm0]. rewrite <- S6 in Hm0.
   set (nx := match last_entry (firstn k restL) with Some le => eidx le + 1 | None => next - 1 + 1 end) in *.
-  destruct (leader_next_idx e fid T nx false true _ m0 S2 S3 Hm0)
+  destruct (leader_next_idx e fid T nx false true _ m0 _ S2 S3 Hm0 S7)
     as (N1 & N2 & N3 & N4 & N5 & N6 & N7).
+  cbn [andb] in N6, N7.
   (* the new common segment *)
   assert (Hnx : nx = last_idx (C ++ firstn k restL) + 1).
   { subst nx. destruct (firstn k restL) as [|y ys] eqn:Ef.
@@ -546,7 +580,7 @@ Proof.
       subst restL. destruct k; cbn; rewrite app_nil_r; subst next; reflexivity. }
   assert (Hnext' : aget fid (next_idx (nd (on_message e fid (NextIdx T nx false true)
                       (nd (fst (ae_body e fid next (start_S e nl))))))) = Some nx).
-  { rewrite N7. cbn [andb]. destruct (m0 <? nx - 1); [reflexivity|]. rewrite S7, Hopt. reflexivity. }
+  { rewrite N7. destruct (m0 <? nx - 1); [reflexivity|]. rewrite Hopt. reflexivity. }
   exists k. split; [exact Hk1|]. split; [exact Hk2|].
   (* the follower's new log *)
   assert (HF' : log (nd (on_message e lid (AE T (commit nl) (Some (next - 1, eterm cl)) (firstn k restL)) nf)) =
@@ -585,19 +619,12 @@ Proof.
     assert (HL' : L = preL ++ (C ++ firstn k restL) ++ skipn k restL).
     { rewrite <- app_assoc. rewrite firstn_skipn. exact bi_L0. }
     rewrite <- HL' in TL3.
-    constructor; auto; try congruence; try lia.
+    constructor; eauto; try congruence; try lia.
     intros i a b Ha Hb. destruct k as [|k'].
     + (* nothing sent: restL is empty *)
       destruct restL as [|y ys]; [destruct i; discriminate|]. specialize (Hk2 ltac:(discriminate)). lia.
     + destruct i; discriminate.
-  - destruct N6 as [m1 Hm1].
-    (* match index after a success answer *)
-    clear Hnext'. cbn [on_message nd start_S] in Hm1 |- *.
-    rewrite S2, S3, !N.eqb_refl in Hm1 |- *. cbn [andb] in Hm1 |- *.
-    rewrite Hm0 in Hm1 |- *.
-    destruct (m0 <? nx - 1) eqn:Em.
-    + unfold ok, upd in *. cbn in *. exists (nx - 1). split; [apply aget_aset_same|lia].
-    + unfold ok, upd in *. cbn in *. exists m0. split; [rewrite Hm0; reflexivity|lia].
+  - eexists. split; [exact N6|]. destruct (m0 <? nx - 1) eqn:Em; lia.
 Qed.
 
 Lemma rounds_S : forall k st, rounds (Datatypes.S k) e lid fid st = rounds k e lid fid (round e lid fid st).
